@@ -35,6 +35,8 @@ func specC04() *propertySpec {
 			{"C04-R4.8", "retry-in-place-only-without-bits: a Repeat action is retried inside the same (kept) step only if it has drawn nothing from the bitstream; otherwise the step is rejected and discarded", ruleC04R48},
 			{"C04-R4.9", "recording-only-grows: rec.data and rec.groups are shortened or replaced only by prune and its helpers; every other store appends, so drawn() = len(rec.data) is the number of words drawn in recording runs as it is (by counter) in the others", ruleC04R49},
 			{"C04-R4.10", "no-failure-discarded: wherever a rejected attempt is marked as discarded (repeat.reject, endGroup with a discard flag) after user code may have run in it (generator values, function values), the failure flag is consulted first on every path: the verdict of a test case does not rest on bits that prune() removes", ruleNoFailureDiscarded},
+			{"C04-R4.11", "repeat-state-owned: the fields of repeat are written only by newRepeat, more and reject — no generator adjusts the count, the limits or the continue probability after a rejection; the only rejection-derived state that steers a draw is the one R4.4 reviews (shared from C03-R9)", ruleRepeatOwnState},
+			{"C04-R4.12", "same-verdict-in-both-recording-modes: endGroup's 'group used data' assertion is made on every path that keeps the group, recording or not, and exempts discarded groups in both (shared with C13-R6 / C01-R10): the search runs on non-recording streams, the reproduction on recording ones", ruleEndGroupAssertExempt},
 			{"C04-R7", "no-once-around-user-code: no sync.Once.Do function calls a function value (a panic there is remembered as 'done' and the same bits give another verdict afterwards)", ruleNoOnceAroundUserCode},
 			{"C04-R5", "prune-removes-exactly-discards: prune removes group i only under groups[i].discard; removeGroup deletes data[g.begin:g.end] and rebases by g.end-g.begin", ruleC04R5},
 			{"C04-R6", "generators-are-not-changed-by-draws: the generator is the other argument of the draw function: a value method neither stores through nor hands out data loaded from a generator field, a package-level variable or an object captured when the generator was built, so the same bits keep producing the same values (shared with C15-R3)", ruleC15R3},
@@ -765,7 +767,8 @@ func (r *Run) discardSites() []*callSite {
 	var out []*callSite
 	for _, fn := range p.FuncList {
 		for _, cs := range p.callsTo(fn, "invoke:bitStream.endGroup") {
-			if _, isC := p.resolve(cs.Arg(1)).(*ssa.Const); !isC {
+			// a computed flag, or the constant true (an exit of its own for the rejected attempt)
+			if bv, isC := constBool(p.resolve(cs.Arg(1))); !isC || bv {
 				out = append(out, cs)
 			}
 		}
@@ -776,7 +779,7 @@ func (r *Run) discardSites() []*callSite {
 func ruleC04R45(r *Run) {
 	p := r.P
 	sites := r.discardSites()
-	r.Floor("endGroup sites with a computed discard flag", len(sites), 4)
+	r.Floor("endGroup sites that can discard", len(sites), 4)
 	for _, cs := range sites {
 		name := p.fnName(cs.Fn)
 		if name == "(*repeat).more" {
@@ -965,6 +968,15 @@ func ruleC04R46(r *Run) {
 				}
 			}
 		})
+		constTrue := false
+		if bv, isC := constBool(p.resolve(d)); isC && bv {
+			constTrue = true
+		}
+		if constTrue && complete && nPaths == 0 {
+			// the rejected attempt has an exit of its own: no returning path of this iteration passes it
+			r.OK(name+"#discard-unused", cs.Instr.Pos(), "no returning path of the attempt passes this unconditional discard")
+			continue
+		}
 		if complete && nPaths == 0 && l != nil {
 			// a loop whose exit test follows the attempt (`for !ok { … }`): the returning paths pass the header a second
 			// time; enumerate them from the block of the endGroup itself
@@ -1469,6 +1481,7 @@ func rulePruneBundle(r *Run) {
 	ruleC04R48(r)
 	ruleC04R49(r)
 	ruleNoFailureDiscarded(r)
+	ruleRepeatOwnState(r)
 	ruleC04R5(r)
 	ruleC03R2(r)
 }
